@@ -15,11 +15,13 @@ COMPILED_ALL = [sv.compile(s, namespaces=NS) for s in POOL]
 SEL = part(list(range(len(POOL))))
 NSEL = len(SEL)
 
-DOCNAMES = ['forms_hp', 'forms_lxml', 'forms_h5', 'plain_hp', 'multiroot_hp', 'xml', 'xhtml', 'empty_hp']
+DOCNAMES = ['forms_hp', 'forms_lxml', 'forms_h5', 'plain_hp', 'multiroot_hp', 'xml', 'xhtml', 'empty_hp', 'foreign_form_xml',
+            'meta_class_hp', 'meta_class_h5', 'meta_class_lxml', 'scripty_hp']
 DOCS = [tg.doc(n) for n in DOCNAMES]
 ELS = [tg.elements(d) for d in DOCS]
 DETACHED = [tg.detached('forms_hp', 'f1'), tg.detached('plain_hp', 'u'), tg.detached('xml', 'xa'),
-            tg.detached('forms_hp', 'r1')]
+            tg.detached('forms_hp', 'r1'), tg.detached('forms_hp', 'lg'), tg.detached('forms_hp', 'fs'), tg.detached('forms_hp', 'o1'),
+            tg.detached('forms_hp', 'ta'), tg.detached('forms_hp', 'fr')]
 
 
 def _exercise(c, target, els):
